@@ -1,8 +1,14 @@
 import Driver.Util
 import Driver.Part
+import Driver.Barrier
 import Driver.Route
 import Driver.DSet
 import Driver.Coll
+import Driver.MapSet
+import Driver.Lines
+import Driver.Arr
+import Driver.Wire
+import Driver.Cache
 /-! `ygm_model <mode>`: runs the executable definitions of `YgmVerif.Model.*`
 (the very definitions the theorems in `YgmVerif.Props.*` are about) behind a
 one-line-in / one-line-out protocol. -/
@@ -12,7 +18,16 @@ def main (args : List String) : IO UInt32 := do
   let stdin ← IO.getStdin
   match args with
   | ["part"] => lineLoop stdin Driver.Part.handle; return 0
+  | ["barrier"] => stateLoop stdin Driver.Barrier.handle Driver.Barrier.dummy; return 0
   | ["route"] => lineLoop stdin Driver.Route.handle; return 0
   | ["dset"] => lineLoop stdin Driver.DSet.handle; return 0
   | ["coll"] => lineLoop stdin Driver.Coll.handle; return 0
+  | ["map"] => lineLoop stdin Driver.MapSet.handleMap; return 0
+  | ["set"] => lineLoop stdin Driver.MapSet.handleSet; return 0
+  | ["lines"] => stateLoop stdin Driver.Lines.handle []; return 0
+  | ["array"] => lineLoop stdin Driver.Arr.handleArray; return 0
+  | ["bag"] => lineLoop stdin Driver.Arr.handleBag; return 0
+  | ["wire"] => stateLoop stdin Driver.Wire.handle []; return 0
+  | ["cache"] => lineLoop stdin Driver.Cache.handleCache; return 0
+  | ["reduce"] => lineLoop stdin Driver.Cache.handleReduce; return 0
   | _ => IO.eprintln "usage: ygm_model <mode>"; return 2
